@@ -14,6 +14,7 @@ import pymbolic.mapper.differentiator as diffmod
 
 from ..core import check, short
 from ..gen import expr as G
+from ..mon import streams
 from ..mon.trace import HandlerTrace
 from ..ref import normal, refsem
 from ..ref.dual import D, DualMath, Kinks
@@ -94,7 +95,11 @@ def forbidden(e, setting, in_diff_pos=True):
     if isinstance(e, p.Call):
         f = e.function
         name = f.name if isinstance(f, p.Lookup) and f.aggregate == var("math") else None
-        if name == "fabs" and setting == "none":
+        arity = {"copysign": 2}.get(name, 1)
+        if name is not None and len(e.parameters) != arity:
+            # math.log(x, base), math.sin(): not an entry of the derivative table
+            out.append("unknown-function")
+        elif name == "fabs" and setting == "none":
             out.append("fabs")
         elif name == "copysign" and setting != "discontinuous":
             out.append("copysign")
@@ -212,6 +217,12 @@ def c_diff(ctx, case):
                     ok = abs(a - b) <= 1e-7 * (1 + abs(b)) or (math.isinf(b.real) and a == b)
             except (OverflowError, TypeError):
                 ok = True
+            if not ok and not alg and _ill_conditioned(de, env, got[1]):
+                # catastrophic cancellation ((c/x)*x differentiated, times 65**9): the value of
+                # the derivative expression itself moves by more than the tolerance when the
+                # point moves by one part in 10**12 -- floats cannot decide this point
+                ctx.count("ill_conditioned_float_point")
+                continue
             if not ok:
                 ctx.fail("C10.diff", case, f"value:{'exact' if alg else 'float'}:{_top(e)}",
                          f"d/d{wrt} of {e} [{setting}] = {de}; at {pt} it evaluates to {got[1]!r} but "
@@ -275,6 +286,90 @@ def c_refusal(ctx, case):
                      f"non-smoothness allowed the forbidden constructs are {sorted(set(forb))}")
 
 
+def stream_rows(seed, n):
+    import random
+    from collections import Counter
+    r = random.Random(seed)
+    h = Counter()
+    for i in range(n):
+        k = r.random()
+        if k < 0.4:
+            yield p.Power(p.CommonSubexpression(p.Sum((p.Power(X, 2 + i % 5), i))), 2)
+        elif k < 0.6:
+            yield p.Product((p.CommonSubexpression(p.Sum((p.Product((i + 1, X)), Y)), "c"),
+                             p.CommonSubexpression(gen(r, 1, True, h))))
+        else:
+            e = gen(r, 2, True, h)
+            yield p.CommonSubexpression(e if isinstance(e, p.Expression) else p.Sum((X, i)))
+
+
+@check("C10.stream")
+def c_stream(ctx, case):
+    """ONE DifferentiationMapper over a stream of temporaries wrapped in common
+    subexpressions (each row dropped before the next is built): every derivative is the true
+    one, compared exactly over Fractions with dual numbers."""
+    seed, n, wrt = case
+    wv = p.make_variable(wrt) if isinstance(wrt, str) else wrt
+    dm = DifferentiationMapper(wv)
+    rng = ctx.sub_rng("pts", seed)
+    pts = list(points(rng, 3, True))
+
+    def judge(i, e):
+        ctx.case(None)
+        ctx.count("stream:derivatives")
+        try:
+            de = dm(e)
+        except RecursionError:
+            raise
+        except Exception as ex:  # noqa: BLE001
+            ctx.fail("C10.stream", case, f"crashed:{type(ex).__name__}",
+                     f"row {i}: one DifferentiationMapper({wrt}) on {e} raised "
+                     f"{type(ex).__name__}: {ex}")
+            return
+        for pt in pts:
+            Kinks.reset()
+            try:
+                ref = D.lift(refsem.ev(e, dual_env(pt, wv)))
+            except (ZeroDivisionError, ValueError, OverflowError, TypeError):
+                continue
+            got = refsem.outcome(lambda: refsem.ev(de, dict(pt)))
+            if got[0] != "v":
+                if got[1] in ("ZeroDivisionError", "OverflowError", "ValueError"):
+                    continue
+                ctx.fail("C10.stream", case, f"derivative-eval:{got[1]}",
+                         f"row {i}: d/d{wrt} of {e} is {de}; evaluating it at {pt} raised {got[1]}")
+                return
+            if isinstance(got[1], (float, complex)) or isinstance(ref.d, (float, complex)):
+                continue
+            ctx.count("stream:compared_exactly")
+            if got[1] != ref.d:
+                ctx.fail("C10.stream", case, f"value:{_top(e)}",
+                         f"row {i} of a stream of temporaries through one "
+                         f"DifferentiationMapper({wrt}): d/d{wrt} of {e} = {de}; at {pt} it is "
+                         f"{got[1]!r} but the dual-number derivative is {ref.d!r}")
+                return
+    streams.each(ctx, stream_rows(seed, n), judge)
+
+
+def _ill_conditioned(de, env, value):
+    try:
+        env2 = {}
+        for k, v in env.items():
+            if isinstance(v, float):
+                env2[k] = v * (1 + 1e-12)
+            elif isinstance(v, list):
+                env2[k] = [u * (1 + 1e-12) if isinstance(u, float) else u for u in v]
+            else:
+                env2[k] = v
+        v2 = refsem.outcome(lambda: refsem.ev(de, env2))
+        if v2[0] != "v":
+            return True
+        a, b = complex(value), complex(v2[1])
+        return not (abs(a - b) <= 1e-7 * (1 + abs(a)))
+    except (OverflowError, TypeError, ValueError):
+        return True
+
+
 def _top(e):
     return type(e).__name__
 
@@ -334,13 +429,28 @@ def workload(ctx):
                 ctx.sample("random-" + ("algebraic" if alg else "transcendental"),
                            f"{e}  [{setting}]")
             ctx.run("C10.diff", (e, setting, alg, rng.randrange(10**9)))
+        for i in range(ctx.per_shard(ctx.pick(24, 400))):
+            ctx.case(("stream", i), True, n=0)
+            ctx.run("C10.stream", (rng.getrandbits(32), rng.randint(20, 100),
+                                   rng.choice([X, Y, "x", p.Subscript(A, 0)])))
         # refusal histories: non-smooth constructs, bare and inside common subexpressions
         math_ = var("math")
         nons = [lambda a: p.Call(p.Lookup(math_, "fabs"), (a,)),
                 lambda a: p.Call(p.Lookup(math_, "copysign"), (a, Y)),
                 lambda a: p.If(p.Comparison(a, "<", 1), p.Power(a, 2), a),
                 lambda a: p.Call(p.Lookup(math_, "sin"), (a,)),
-                lambda a: pf.sign(a) if hasattr(pf, "sign") else p.Power(a, 3)]
+                lambda a: pf.sign(a) if hasattr(pf, "sign") else p.Power(a, 3),
+                # not known: other arities of table names, names outside the table
+                lambda a: p.Call(p.Lookup(math_, "log"), (3, a)),
+                lambda a: p.Call(p.Lookup(math_, "log"), (a, a)),
+                lambda a: p.Call(p.Lookup(math_, "log"), (a, 2)),
+                lambda a: p.Call(p.Lookup(math_, "sin"), (a, a)),
+                lambda a: p.Call(p.Lookup(math_, "fabs"), (a, Y)),
+                lambda a: p.Call(p.Lookup(math_, "copysign"), (a,)),
+                lambda a: p.Call(p.Lookup(math_, "atan2"), (a, Y)),
+                lambda a: p.Call(p.Lookup(math_, "sqrt"), (a,)),
+                lambda a: p.Call(p.Lookup(var("np"), "sin"), (a,)),
+                lambda a: p.Call(var("sin"), (a,))]
         wraps = [lambda t: t, lambda t: p.CommonSubexpression(t),
                  lambda t: p.Product((p.CommonSubexpression(t, "w"), X)),
                  lambda t: p.Sum((p.CommonSubexpression(p.Product((t, Y))), 1))]
@@ -358,6 +468,9 @@ def workload(ctx):
         for k, v in tr.counts.items():
             if k.endswith("map_math_functions_by_name"):
                 ctx.count("handler:map_math_functions_by_name", v)
+    ctx.floor("stream:rows", 300)
+    ctx.floor("stream:compared_exactly", 500)
+    ctx.floor("stream:row_address_reused", 100)
     ctx.floor("derivative_evals", 20000)
     ctx.floor("exact", 5000)
     ctx.floor("compared_exactly", 3000)
